@@ -175,6 +175,86 @@ def ext_parse_check(rr, chk):
     return n
 
 
+def shared_definition_check(rr, chk):
+    """one plain class used as the definition of a custom type for BOTH spec versions (with and without an extension of its own for 2.1, either order of registration, or a 2.0
+    definition deriving from the 2.1 one): both registered types keep the guarantees of built-in types -- construct, round trip to the registered class, new version, bundle member"""
+    import stix2
+    from stix2.properties import StringProperty
+    n = 0
+    uid = "dddddddd-1111-4111-8111-%012x"
+    k = 0
+    for cat in ("objects", "observables"):
+        for order in ("21_first", "20_first", "20_derives_from_21"):
+            for with_ext in (True, False):
+                rr.restore()
+                k += 1
+                name = "x-shared-def-%d" % k
+                ext = ("extension-definition--" + uid % k) if with_ext else None
+
+                class Body(object):
+                    pass
+                props = [("prop1", StringProperty(required=True))]
+                built = {}
+                try:
+                    def reg(v, body):
+                        mod = stix2.v20 if v == "2.0" else stix2.v21
+                        if cat == "objects":
+                            return mod.CustomObject(name, props, **({"extension_name": ext} if ext and v == "2.1" else {}))(body)
+                        return mod.CustomObservable(name, props, **(dict(id_contrib_props=["prop1"], **({"extension_name": ext} if ext else {})) if v == "2.1" else {}))(body)
+                    if order == "21_first":
+                        built["2.1"] = reg("2.1", Body)
+                        built["2.0"] = reg("2.0", Body)
+                    elif order == "20_first":
+                        built["2.0"] = reg("2.0", Body)
+                        built["2.1"] = reg("2.1", Body)
+                    else:
+                        built["2.1"] = reg("2.1", Body)
+
+                        class Body20(built["2.1"]):
+                            pass
+                        # (a definition class that derives from the registered 2.1 class: documented as "any class"; only the plain-attribute contract is used)
+                        built["2.0"] = reg("2.0", type("Body20", (Body,), {}))
+                except Exception as e:  # noqa
+                    chk.violation({"entry": "Custom* decorator", "clause": "C19:registration_of_shared_definition_refused", "case": "cat=%s order=%s ext=%s exc=%s" % (cat, order, with_ext, type(e).__name__)},
+                                  {"cat": cat, "order": order, "with_extension": with_ext, "exc": repr(e)}, "S2c")
+                    continue
+                for v, cls in sorted(built.items()):
+                    n += 1
+                    chk.case(["shared_definition", cat, order, with_ext, v])
+                    what = "construct"
+                    try:
+                        o = cls(prop1="x")
+                        what = "round_trip"
+                        if cat == "objects" or v == "2.1":
+                            back = stix2.parse(o.serialize(), version=v)
+                        else:
+                            back = stix2.parse_observable(o.serialize(), version=v)
+                        if type(back) is not cls or back != o:
+                            raise AssertionError("parsed to %s, equal=%s" % (type(back).__name__, back == o))
+                        what = "bundle_member"
+                        mod = stix2.v20 if v == "2.0" else stix2.v21
+                        if cat == "objects" or v == "2.1":
+                            b = stix2.parse(mod.Bundle(o).serialize(), version=v)
+                            if type(b.objects[0]) is not cls:
+                                raise AssertionError("bundle member parsed to %s" % type(b.objects[0]).__name__)
+                        else:
+                            od = mod.ObservedData(first_observed="2020-01-01T00:00:00Z", last_observed="2020-01-01T00:00:00Z", number_observed=1, objects={"0": o})
+                            b = stix2.parse(od.serialize(), version=v)
+                            if type(b.objects["0"]) is not cls:
+                                raise AssertionError("container member parsed to %s" % type(b.objects["0"]).__name__)
+                        if cat == "objects":
+                            what = "new_version"
+                            nv = o.new_version(prop1="y")
+                            if type(nv) is not cls or nv.prop1 != "y" or nv.id != o.id:
+                                raise AssertionError("new version is %s" % type(nv).__name__)
+                    except Exception as e:  # noqa
+                        chk.violation({"entry": what, "clause": "C19:registered_type_without_builtin_guarantees", "case": "cat=%s v=%s order=%s ext=%s exc=%s" % (cat, v, order, with_ext, type(e).__name__)},
+                                      {"cat": cat, "v": v, "order": order, "with_extension": with_ext, "step": what, "exc": repr(e)[:300]}, "S2c")
+    rr.restore()
+    chk.stages["S2c_shared_definitions"] = {"types_exercised": n}
+    return n
+
+
 def name_patterns():
     """names enumerated from character classes: every class in first / middle / last position, boundary lengths"""
     out = []
@@ -235,6 +315,7 @@ def run(chk):
         chk.stages["S2_spec_to_code"] = {"behaviours_replayed": len(behs), "steps": nsteps}
         chk.sample({"S2_behaviour": [s["step"] for s in behs[-1]]})
         chk.evaluations += ext_parse_check(rr, chk)
+        shared_definition_check(rr, chk)
 
         # ---- S3: random histories with wider names + the naming sweep, validated by the trace spec
         lines = []
